@@ -27,7 +27,10 @@ m('c04_one_iteration', 'C04', MO, "                max_iterations = 1000  # Prev
 # ---- C05/C06
 m('c06_revert_f6', ['C06', 'C05'], S, "                self._runloop_task = loop.create_task(self._run_loop(), name=f'{self}._run_loop', context=runloop_context)", "                self._runloop_task = loop.create_task(self._run_loop(), name=f'{self}._run_loop')", 'revert F6')
 m('c06_parallel_bus_skips_lock', ['C06', 'C05'], S, "        async with _get_global_lock():\n            # Process the event\n            await self.process_event(event, timeout=timeout)\n\n            # Mark task as done only if we got it from the queue\n            if from_queue:\n                self.event_queue.task_done()\n", "        if self.parallel_handlers:\n            await self.process_event(event, timeout=timeout)\n            if from_queue:\n                self.event_queue.task_done()\n        else:\n          async with _get_global_lock():\n            # Process the event\n            await self.process_event(event, timeout=timeout)\n\n            # Mark task as done only if we got it from the queue\n            if from_queue:\n                self.event_queue.task_done()\n", 'parallel buses process without the global lock')
-m('c06_revert_f27', 'C06', S, "                while still_running:\n                    try:\n                        await asyncio.wait(still_running)\n                    except asyncio.CancelledError:", "                while still_running:\n                    try:\n                        await asyncio.wait(still_running)\n                    except asyncio.CancelledError:\n                        raise\n                    except ZeroDivisionError:", 'revert F27: a second cancellation abandons unwinding siblings')
+# (reverting F27 - or F24 - alone is equivalent since the F28 repair: gather() only raises the cancellation into
+#  _execute_handlers once every handler task is done, so the clean-up loop below it has nothing left to wait for;
+#  c16_revert_f28 + this revert together would bring F27 back)
+m('c06_revert_f27_f28', 'C06', S, "                await asyncio.gather(*[task for task, _handler in handler_tasks.values()], return_exceptions=True)\n", "                for _hid, (task, _handler) in handler_tasks.items():\n                    try:\n                        await task\n                    except Exception:\n                        pass\n", 'revert F28 and F27 together', more=[(S, "                    except asyncio.CancelledError:\n                        # a further cancellation (e.g. another enclosing timeout) while the siblings are still unwinding:\n                        # they are cancelled already, keep waiting for them instead of abandoning them mid-cleanup\n                        pass\n", "                    except asyncio.CancelledError:\n                        raise\n")])
 # ---- C07
 m('c07_no_path_check', 'C07', S, "            if target_bus.name in event.event_path:\n", "            if target_bus.name in event.event_path[-1:]:\n", 'two sites: forward-loop check (at selection and again before forwarding) only looks at the last bus: cycles never terminate',
   more=[(S, "            and handler.__self__.name in event.event_path\n", "            and handler.__self__.name in event.event_path[-1:]\n")])
